@@ -6,6 +6,7 @@
 //! Every case is announced (written to $BVERIF_ANNOUNCE/<thread>.json) before it is evaluated,
 //! so that the engine can attribute an abort or stack overflow of this process to a case.
 
+mod c07;
 mod c08;
 mod c19;
 mod shell;
@@ -55,6 +56,7 @@ static SKIP: std::sync::OnceLock<Vec<u64>> = std::sync::OnceLock::new();
 
 fn run_prop(prop: &str, ctx: &Ctx) -> Vec<LayerReport> {
     match prop {
+        "C07" => c07::run(ctx),
         "C08" => c08::run(ctx),
         "C19" => c19::run(ctx),
         _ => {
@@ -66,6 +68,7 @@ fn run_prop(prop: &str, ctx: &Ctx) -> Vec<LayerReport> {
 
 fn replay(prop: &str, layer: &str, case: &serde_json::Value) -> Result<(String, Verdict), String> {
     match prop {
+        "C07" => c07::replay(layer, case),
         "C08" => c08::replay(layer, case),
         "C19" => c19::replay(layer, case),
         _ => Err(format!("bvinproc: no replay for {prop}")),
